@@ -347,13 +347,13 @@ func (r *yieldRewriter) rewriteStmt(
 	case *ast.RangeStmt:
 		// visit the body like the body of any other loop, so that statements
 		// that are not supported in a generator (defer, select, labels, goto)
-		// are rejected here too. Only a body without yields is visited: visiting
-		// takes yielding for/switch initialisers out of their statements, and the
-		// statement pushed here is the original one. A yield in the body is
-		// reported after rewriting.
-		if r.mustNoYield(stmt.Body) {
-			r.rewriteBlockStmt(stmt.Body, kindFor)
-		}
+		// are rejected here too. A body that contains a yield (even an unreachable
+		// one) is rejected right away: visiting it takes yielding for/switch
+		// initialisers out of their statements, and the statement pushed here is
+		// the original one.
+		r.assert(r.mustNoYield(stmt.Body), stmt.Body,
+			"yield not supported in the body of a range over a function, a pointer to an array or a type parameter")
+		r.rewriteBlockStmt(stmt.Body, kindFor)
 		children.push(stmt, kindTrival)
 		return children
 
